@@ -206,11 +206,5 @@ CLAIMS['C02'] = dict(
           'segment byte sums match, the SHA-256 of the metadata ext, and everything value-level (C06 decides the hash functions\' agreement).'),
     note='Partial claim: two clauses of the property, each a necessary condition; the statement as a whole (numerical equalities over stored artefacts) is not decided by static analysis here.')
 
-CLAIMS['C01'] = dict(
-    technique='static analysis: additive-update extraction with linear-form comparison, read-before-append ordering and must-pass-through (guard edge, hand-over) on the MIR of DataAggregator::merge_in',
-    text=('Decides the structural necessary conditions of ONE mechanism of the round trip (several small files sharing a xorb) and nothing else: (R01a) in DataAggregator::merge_in (small files sharing one xorb) every merged segment that still points into the pending xorb '
-          '(cas_hash == default) has chunk_index_start and chunk_index_end shifted by the same amount, exactly once, that amount being the receiver\'s chunk count read before the other aggregator\'s chunks are '
-          'appended; segments that already name a stored xorb are not shifted; chunks, byte total and pending file infos of the other aggregator are all taken over after the shift; (R01b = C15-R15d) file records leave the aggregator only through DataAggregator::finalize, which patches the hash of the xorb cut from the aggregated chunks into every pending segment. A violation makes every '
-          'file merged second or later into an aggregate download wrong bytes. Not decided: the segment bookkeeping of process_chunks, dedup segment merging, reconstruction by segment list, ranged reads, '
-          'and byte equality as such — those are value-level; neighbouring structural clauses are decided under C02, C11, C14, C15 (hash patching in finalize), C16 and C17.'),
-    note='One mechanism of C01 only (two rules); the property as stated (byte-for-byte round trip for all files and configurations) is not decided by static analysis.')
+# C01: a claim for the merge mechanism (xl/rules_c01.py, R01a/R01b) was drafted in round 6 and WITHDRAWN after its benign wave (5 of 6 behaviour-preserving
+# refactorings of DataAggregator::merge_in/finalize raised a report); see DESIGN.md section 5 C01 and notes/withdrawn_c01/.
